@@ -99,7 +99,10 @@ func GenSchemaDoc(c *Ctx, draft7 bool) map[string]any {
 		g.defs = append(g.defs, fmt.Sprintf("d%d", i))
 	}
 	var root map[string]any
-	if c.W(3) == 0 {
+	if k := c.W(12); k == 0 {
+		root = g.wideSchema()
+		root["x-wide"] = true
+	} else if k <= 4 {
 		root = g.clusterSchema()
 		root["x-cluster"] = true
 	} else {
@@ -120,6 +123,62 @@ func GenSchemaDoc(c *Ctx, draft7 bool) map[string]any {
 		root[g.defsKey()] = defs
 	}
 	return root
+}
+
+// wideSchema: an object schema with 33-70 properties (implementations may switch strategy
+// with size: pooled buffers, pre-sized tables, different algorithms above a threshold).
+func (g *schemaGen) wideSchema() map[string]any {
+	c := g.c
+	n := 33 + c.W(38)
+	props := map[string]any{}
+	var req []any
+	for i := 0; i < n; i++ {
+		k := fmt.Sprintf("p%02d", i)
+		sub := map[string]any{}
+		g.leaf(sub)
+		props[k] = sub
+		if c.W(8) == 0 {
+			req = append(req, k)
+		}
+	}
+	s := map[string]any{"type": "object", "properties": props}
+	if len(req) > 0 {
+		s["required"] = req
+	}
+	if c.W(2) == 0 {
+		s["additionalProperties"] = false
+	}
+	if c.W(3) == 0 {
+		s["patternProperties"] = map[string]any{"^p0": map[string]any{}, "^p1": map[string]any{"type": []any{"integer", "string", "null", "boolean", "number", "array", "object"}}}
+	}
+	if c.W(3) == 0 {
+		s["maxProperties"] = n
+	}
+	return s
+}
+
+// GenWideDoc returns a wide object schema document.
+func GenWideDoc(c *Ctx) map[string]any {
+	g := &schemaGen{c: c}
+	root := g.wideSchema()
+	root["x-wide"] = true
+	return root
+}
+
+// wideInstance has most of the wide schema's keys.
+func wideInstance(c *Ctx, s map[string]any) any {
+	m := map[string]any{}
+	props, _ := s["properties"].(map[string]any)
+	for _, k := range sortedKeys(props) {
+		if c.W(5) != 0 {
+			sub, _ := props[k].(map[string]any)
+			m[k] = GenInstanceFor(c, sub, 1)
+		}
+	}
+	if c.W(4) == 0 {
+		m["zz"] = 1.0
+	}
+	return m
 }
 
 // interacting subschemas: small schemas whose effect depends on which sibling ran
@@ -514,6 +573,9 @@ func (g *schemaGen) logic(s map[string]any, depth int, descended bool) {
 func GenInstanceFor(c *Ctx, s map[string]any, depth int) any {
 	if _, ok := s["x-cluster"]; ok && c.W(5) != 0 {
 		return clusterInstance(c)
+	}
+	if _, ok := s["x-wide"]; ok && c.W(5) != 0 {
+		return wideInstance(c, s)
 	}
 	if depth <= 0 || c.W(4) == 0 {
 		return GenValue(c, 2)
